@@ -118,3 +118,129 @@ package pace
 //@   ensures fresh(tIfd) && fresh(tIc)
 //@   assigns nothing
 //@   safety all
+
+//@ pred validPace(p *Pace) { p != nil && p.keyGeneratorEc != nil && validNfc(p.nfcSession) && p.document != nil && p.password != nil }
+// frame of every PACE step that talks to the chip before the session is installed
+// (nfc.sm itself is only written by mutualAuthGmEcDh)
+
+//@ func (pace *Pace) doApduMseSetAT
+//@   props C04 C11 C12
+//@   requires validPace(pace) && paceSuite(paceConfig) && okDomain(domainParams)
+//@   ensures "error-unless-9000": err == nil ==> pace.nfcSession.lastSW == 36864
+//@   ensures pace.nfcSession.sm == old(pace.nfcSession.sm)
+//@   assigns pace.nfcSession.lastApduLogEntry, content(pace.nfcSession.apduLog), content(pace.nfcSession.sm), pace.nfcSession.lastSW, pace.nfcSession.lastProtected
+//@   safety all
+
+// z = DO'80' of the first GENERAL AUTHENTICATE response; s = D(Kpi, z)
+//@ func (pace *Pace) getNonce
+//@   props C04 C11 C12
+//@   requires validPace(pace) && paceSuite(paceConfig)
+//@   proves "nonce-is-the-decrypted-chip-cryptogram": result1 == nil ==> result0 === cbcD(paceConfig.cipher, canonKey(paceConfig.cipher, kKdf), zeros(blockSizeOf(paceConfig.cipher)), nonceE)
+//@   ensures result1 == nil ==> pace.nfcSession.lastSW == 36864
+//@   ensures result1 != nil ==> result0 == nil
+//@   ensures pace.nfcSession.sm == old(pace.nfcSession.sm)
+//@   assigns pace.nfcSession.lastApduLogEntry, content(pace.nfcSession.apduLog), content(pace.nfcSession.sm), pace.nfcSession.lastSW, pace.nfcSession.lastProtected
+//@   safety all
+
+// mapping: fresh terminal key, chip key decoded on the curve and different from the terminal's, G' = s*G + SK_map * PK_map,IC
+//@ func (pace *Pace) mapNonceGmEcDh
+//@   props C04 C11 C12
+//@   requires validPace(pace) && okDomain(domainParams)
+//@   ensures "mapped-generator-from-nonce-and-ecdh": err == nil ==> okPoint(mapped_g) && okPoint(pubMapIC)
+//@        && mapped_g.X.val == ecAddX(ref(domainParams.ec), ecBaseX(ref(domainParams.ec), beS(s)), ecBaseY(ref(domainParams.ec), beS(s)),
+//@              ecMulX(ref(domainParams.ec), pubMapIC.X.val, pubMapIC.Y.val, beS(termMapPri)), ecMulY(ref(domainParams.ec), pubMapIC.X.val, pubMapIC.Y.val, beS(termMapPri)))
+//@        && mapped_g.Y.val == ecAddY(ref(domainParams.ec), ecBaseX(ref(domainParams.ec), beS(s)), ecBaseY(ref(domainParams.ec), beS(s)),
+//@              ecMulX(ref(domainParams.ec), pubMapIC.X.val, pubMapIC.Y.val, beS(termMapPri)), ecMulY(ref(domainParams.ec), pubMapIC.X.val, pubMapIC.Y.val, beS(termMapPri)))
+//@   ensures "chip-mapping-key-decoded-on-the-curve": err == nil ==> pace.nfcSession.lastSW == 36864
+//@   ensures err != nil ==> mapped_g == nil && pubMapIC == nil
+//@   ensures pace.nfcSession.sm == old(pace.nfcSession.sm)
+//@   ensures fresh(mapped_g) && fresh(pubMapIC) && fresh(termMapPri) && fresh(termMapPub)
+//@   assigns pace.nfcSession.lastApduLogEntry, content(pace.nfcSession.apduLog), content(pace.nfcSession.sm), pace.nfcSession.lastSW, pace.nfcSession.lastProtected
+//@   safety all
+
+// key agreement over the mapped generator: PK_DH,IFD = SK_DH * G', K = FE2OS(x(SK_DH * PK_DH,IC)), PK_DH,IC != PK_DH,IFD
+//@ func (pace *Pace) keyAgreementGmEcDh
+//@   props C04 C11 C12
+//@   uses field_element_width
+//@   requires validPace(pace) && okDomain(domainParams) && okPoint(G)
+//@   ensures "terminal-key-on-the-mapped-generator": err == nil ==> termKeypair != nil && okPoint(termKeypair.Pub) && okPoint(chipPub)
+//@        && termKeypair.Pub.X.val == ecMulX(ref(domainParams.ec), G.X.val, G.Y.val, beS(termKeypair.Pri))
+//@        && termKeypair.Pub.Y.val == ecMulY(ref(domainParams.ec), G.X.val, G.Y.val, beS(termKeypair.Pri))
+//@   ensures "shared-secret-is-the-full-width-x-coordinate": err == nil ==> sharedSecret === fe2os(ecMulX(ref(domainParams.ec), chipPub.X.val, chipPub.Y.val, beS(termKeypair.Pri)), fieldLen(ref(domainParams.ec)))
+//@   ensures "public-keys-differ": err == nil ==> !(termKeypair.Pub.X.val == chipPub.X.val && termKeypair.Pub.Y.val == chipPub.Y.val)
+//@   ensures err != nil ==> sharedSecret == nil && termKeypair == nil && chipPub == nil
+//@   ensures pace.nfcSession.sm == old(pace.nfcSession.sm)
+//@   ensures fresh(sharedSecret) && fresh(termKeypair) && fresh(chipPub)
+//@   assigns pace.nfcSession.lastApduLogEntry, content(pace.nfcSession.apduLog), content(pace.nfcSession.sm), pace.nfcSession.lastSW, pace.nfcSession.lastProtected
+//@   safety all
+
+// mutual authentication: the session is installed only after the chip's token equals T_IC computed under KSmac = KDF(K, 2)
+//@ func (pace *Pace) mutualAuthGmEcDh
+//@   props C04 C11 C12
+//@   requires validPace(pace) && paceSuite(paceConfig) && okDomain(domainParams) && okPoint(termPub) && okPoint(chipPub)
+//@   ensures "fail-closed-no-session-installed": err != nil ==> pace.nfcSession.sm == old(pace.nfcSession.sm) && ecadIC == nil
+//@   proves "chip-token-verified": err == nil ==> tIc2 === paceMac(paceConfig.cipher, kdfKey(sharedSecret, 2, paceConfig.cipher, paceConfig.keyLengthBits),
+//@        pk7F49(oidBytesOf(paceConfig.oid), x962(ref(domainParams.ec), termPub.X.val, termPub.Y.val)))
+//@   ensures "session-keys-from-the-shared-secret": err == nil ==> typeis(pace.nfcSession.sm, "*iso7816.SecureMessaging") && fresh(as(pace.nfcSession.sm, "*iso7816.SecureMessaging"))
+//@        && validSM(as(pace.nfcSession.sm, "*iso7816.SecureMessaging")) && as(pace.nfcSession.sm, "*iso7816.SecureMessaging").alg == paceConfig.cipher
+//@        && as(pace.nfcSession.sm, "*iso7816.SecureMessaging").ksEnc === kdfKey(sharedSecret, 1, paceConfig.cipher, paceConfig.keyLengthBits)
+//@        && as(pace.nfcSession.sm, "*iso7816.SecureMessaging").ksMac === kdfKey(sharedSecret, 2, paceConfig.cipher, paceConfig.keyLengthBits)
+//@        && beS(as(pace.nfcSession.sm, "*iso7816.SecureMessaging").ssc) == 0
+//@   ensures "cam-data-present-iff-cam": err == nil && paceConfig.mapping != 2 ==> ecadIC == nil
+//@   ensures fresh(ecadIC)
+//@   assigns pace.nfcSession.sm, pace.nfcSession.lastApduLogEntry, content(pace.nfcSession.apduLog), content(pace.nfcSession.sm), pace.nfcSession.lastSW, pace.nfcSession.lastProtected
+//@   safety all
+
+// chip key for the mapping: an EC key of CardSecurity for this parameter id, decoded on the PACE curve
+//@ func icPubKeyECForCAM
+//@   props C04 C14 C12
+//@   requires okDomain(domainParams) && cardSecurity != nil && cardSecurity.SecurityInfos != nil
+//@   ensures (result1 == nil) == (result0 != nil)
+//@   ensures "key-of-card-security-on-the-pace-curve": result1 == nil ==> okPoint(result0) && (exists i :: 0 <= i && i < len(cardSecurity.SecurityInfos.ChipAuthPubKeyInfos)
+//@        && x962ok(ref(domainParams.ec), cardSecurity.SecurityInfos.ChipAuthPubKeyInfos[i].ChipAuthenticationPublicKey.SubjectPublicKey.Bytes)
+//@        && result0.X.val == x962X(ref(domainParams.ec), cardSecurity.SecurityInfos.ChipAuthPubKeyInfos[i].ChipAuthenticationPublicKey.SubjectPublicKey.Bytes)
+//@        && result0.Y.val == x962Y(ref(domainParams.ec), cardSecurity.SecurityInfos.ChipAuthPubKeyInfos[i].ChipAuthenticationPublicKey.SubjectPublicKey.Bytes))
+//@   loop 1 invariant cardSecurity != nil && cardSecurity.SecurityInfos != nil && okDomain(domainParams)
+//@   loop 1 invariant fallbackPoint != nil ==> okPoint(fallbackPoint) && (exists i :: 0 <= i && i < len(caPubKeyInfos)
+//@        && x962ok(ref(domainParams.ec), caPubKeyInfos[i].ChipAuthenticationPublicKey.SubjectPublicKey.Bytes)
+//@        && fallbackPoint.X.val == x962X(ref(domainParams.ec), caPubKeyInfos[i].ChipAuthenticationPublicKey.SubjectPublicKey.Bytes)
+//@        && fallbackPoint.Y.val == x962Y(ref(domainParams.ec), caPubKeyInfos[i].ChipAuthenticationPublicKey.SubjectPublicKey.Bytes))
+//@   loop 1 invariant caPubKeyInfos === cardSecurity.SecurityInfos.ChipAuthPubKeyInfos && len(caPubKeyInfos) == len(cardSecurity.SecurityInfos.ChipAuthPubKeyInfos)
+//@   assigns nothing
+//@   safety all
+
+// CA_IC = unpad2(D(KSenc, IV = E(KSenc, FF..FF), A_IC))
+//@ spec func camIV(alg int, k seq) seq { blockE(alg, canonKey(alg, k), ones(blockSizeOf(alg))) }
+//@ uf ones(int) seq
+//@ axiom ones_def: forall n int :: len(ones(n)) == n && (forall i :: 0 <= i && i < n ==> ones(n)[i] == 255)
+//@ func decryptEcadIC
+//@   props C04 C14 C12
+//@   requires cipherAlg == 1 || cipherAlg == 2
+//@   ensures "unpadded-cbc-decryption-under-ksenc": result1 == nil ==> len(result0) < len(ecadIC)
+//@        && result0 === cbcD(cipherAlg, canonKey(cipherAlg, ksEnc), camIV(cipherAlg, ksEnc), ecadIC)[:len(result0)]
+//@        && cbcD(cipherAlg, canonKey(cipherAlg, ksEnc), camIV(cipherAlg, ksEnc), ecadIC)[len(result0)] == 128
+//@   ensures result1 != nil ==> result0 == nil
+//@   assigns nothing
+//@   safety all
+
+// CAM is accepted only if CA_IC * PK_IC equals the chip's mapping key (both coordinates)
+//@ func (pace *Pace) doCamEcdh
+//@   props C04 C12
+//@   requires validPace(pace) && paceSuite(paceConfig) && okDomain(domainParams) && okPoint(pubMapIC) && pace.nfcSession.sm != nil
+//@   requires pace.document.Mf.CardSecurity != nil && pace.document.Mf.CardSecurity.SecurityInfos != nil
+//@   proves "cam-equation": err == nil ==> okPoint(pkIC) && pubMapIC.X.val == ecMulX(ref(domainParams.ec), pkIC.X.val, pkIC.Y.val, beS(caIC))
+//@        && pubMapIC.Y.val == ecMulY(ref(domainParams.ec), pkIC.X.val, pkIC.Y.val, beS(caIC))
+//@   proves "ca-data-decrypted-under-the-session-key": err == nil && typeis(pace.nfcSession.sm, "*iso7816.SecureMessaging") ==>
+//@        caIC === cbcD(paceConfig.cipher, canonKey(paceConfig.cipher, as(pace.nfcSession.sm, "*iso7816.SecureMessaging").ksEnc),
+//@                      camIV(paceConfig.cipher, as(pace.nfcSession.sm, "*iso7816.SecureMessaging").ksEnc), ecadIC)[:len(caIC)]
+//@   ensures "only-for-cam-with-data": err == nil ==> paceConfig.mapping == 2 && len(ecadIC) >= 1
+//@   assigns nothing
+//@   safety all
+
+//@ func (pace *Pace) loadCardSecurityFile
+//@   props C04 C11
+//@   requires validPace(pace)
+//@   ensures result == nil ==> pace.document.Mf.CardSecurity != nil
+//@   ensures pace.nfcSession.sm == old(pace.nfcSession.sm)
+//@   assigns pace.document.Mf.CardSecurity, pace.nfcSession.lastApduLogEntry, content(pace.nfcSession.apduLog), content(pace.nfcSession.sm), pace.nfcSession.lastSW, pace.nfcSession.lastProtected
+//@   safety all
